@@ -31,6 +31,7 @@ type h01Env struct {
 }
 
 func h01New(term string, w, h int, truecolor bool) *h01Env {
+	vsymSetenv("VSYM_CLOCK", "concrete") // time is not the subject (H05_when switches the symbolic clock back on)
 	t, tty, s := hScreen(term, w, h, truecolor)
 	e := &h01Env{t: t, tty: tty, s: s, w: w, h: h, curX: -1, curY: -1, truec: truecolor}
 	e.sp = &h08Spec{}
